@@ -41,3 +41,14 @@ func (vm *VolumeManager) VerifChangedVolumes() (ids []int64) {
 	}
 	return
 }
+
+// VerifMuLocked reports whether the manager's mutex is held right now (used by
+// the harness from inside a VolumeStore callback to learn whether its caller
+// holds the mutex).
+func (vm *VolumeManager) VerifMuLocked() bool {
+	if vm.mu.TryLock() {
+		vm.mu.Unlock()
+		return false
+	}
+	return true
+}
